@@ -90,6 +90,12 @@ PROPERTIES = {
         "not_reached": "monotonicity in the budget (a relation between two runs, not a contract on one call); --iters 0 rejection (driver string code); eval_asm::resolve_once (the inner pass itself)",
         "trusted_base": REPORT_TB + RESOLVER_TB,
     },
+    "C16": {
+        "units": ["U-resolver", "U-evalvar"],
+        "claim": "One pass of conditional assembly (asm::resolver::resolve_ifs), for every AST, declaration table and definition table: every `#if` node whose condition evaluates from constants alone to a boolean is replaced, in place, by exactly the nodes of the selected arm - the true arm if the condition is true, otherwise the else/elif arm if there is one, otherwise nothing; every other node (undecided `#if`s included) is kept, in order; the returned count is the number of replaced nodes; a failing evaluation is an error with a diagnostic. After the last pass (check_leftover_ifs): success means no `#if` node is left; a condition that cannot be decided from constants alone is an error with a diagnostic. Command-line defines (check_unused_defines): the result is an error, with a diagnostic, exactly when some define names no declaration (global dotted path lookup).",
+        "not_reached": "nesting to any depth is by iteration of the pass in assemble()'s first loop (closure + Option::as_mut chains, not under contract) - arms are spliced in and revisited by the next pass; that nothing of an unselected arm is visible (no code path touches a removed node) is structural; that a define replaces the constant's value (resolve_constant_simple: iter().find with a closure); -d parsing in the driver (string code; D5 described only); elif is represented by the parser as a nested `#if` in the else arm",
+        "trusted_base": REPORT_TB + RESOLVER_TB + ["ASSUMED: eval_simple is a function of (decls, defs, expression) [simple_value]; R27 wrapper for Vec::splice(n..n, items) = insertion; vstd's Vec::remove; R16 wrapper for str::split('.').collect()"],
+    },
     "C19": {
         "units": ALL_UNITS,
         "claim": "Machine-word arithmetic is not treated as mathematical: every usize/u64 operation in the verified set carries an overflow obligation, all discharged except the listed known findings D9a-D9h (unchecked position arithmetic). Proved limits: checked_add/sub/mul/shl never yield more than BIGINT_MAX_BITS bits and fail loudly beyond the cap; checked_into/expect_usize/expect_nonzero_usize are exact and total on their range; the evaluation depth check (function calls, asm blocks) fails loudly exactly at depth 25 and above.",
@@ -120,7 +126,6 @@ NOT_APPLICABLE = {
     "C07": "matching is &str scanning (syntax::token, syntax::Walker, matcher::match_with_rule) plus a metamorphic relation between two runs; Verus has no str byte reasoning and rejects the iterator chains, Kani did not terminate on 4-character symbolic strings; no contract within reach states it",
     "C10": "determinism quantifies over processes, hash seeds and histories; a function contract describes one call; the hash-order-sensitive sites (driver::parse_output_format, format_recursive) are String/sort_by_key/closure code outside Verus' subset",
     "C14": "filename_navigate is replace/split/filter/collect over &str (rejected by Verus, Kani did not terminate for 4-character paths); include cycle/once handling is recursion over a file-server trait object",
-    "C16": "resolve_ifs rewrites the AST with Vec::remove/Vec::splice over the full AST enum, conditions go through the evaluator, -d parsing is string code; no function-level contract expresses 'exactly one world'",
     "C17": "a relation between two whole assemblies (asm block vs. its inlined expansion); the mechanism is &str substitution plus the evaluator/matcher, outside both verifiers' reach",
     "C18": "getopts/String/HashMap<String,String>/PathBuf code and a usage text; driver.rs is string processing outside Verus' subset and Kani's reach",
 }
